@@ -1,13 +1,15 @@
 #!/bin/sh
-# usage: tools/seed_eval.sh <seed-id> <prop> [<prop>...]  — apply seeded/<id>/patch.diff to /repo, run the quick checks, undo
+# usage: tools/seed_eval.sh <seed-id> <prop> [<prop>...]
+# runs the quick (or $TIER) checks against a scratch copy of /repo's working tree with seeded/<id>/patch.diff applied
+# (PYXAB_SRC points the checks at the copy, /repo itself is never touched, the copy is removed afterwards)
 set -u
 ID=$1; shift
 cd /verif
-git -C /repo diff --quiet || { echo "/repo has local changes"; exit 2; }
-git -C /repo apply "/verif/seeded/$ID/patch.diff" || { echo "patch does not apply to /repo HEAD"; exit 2; }
+W=/tmp/seedsrc-$ID-$$
+rm -rf "$W"; mkdir -p "$W"; cp -r /repo/PyXAB "$W/"; find "$W" -name __pycache__ -type d -prune -exec rm -rf {} + 2>/dev/null
+patch -s -p1 -d "$W" < "/verif/seeded/$ID/patch.diff" || { echo "patch does not apply"; rm -rf "$W"; exit 2; }
 for P in "$@"; do
-  VERIF_EVID_DIR=/verif/evidence/_seed_runs timeout 1500 bin/check "$P" --tier "${TIER:-quick}" > "/tmp/seed-$ID-$P.log" 2>&1; rc=$?
+  PYXAB_SRC="$W" VERIF_EVID_DIR=/verif/evidence/_seed_runs timeout 1500 bin/check "$P" --tier "${TIER:-quick}" > "/tmp/seed-$ID-$P.log" 2>&1; rc=$?
   echo "seed $ID check $P -> exit $rc :: $(grep -c '^VIOLATION' /tmp/seed-$ID-$P.log) violation line(s); first: $(grep -A1 '^VIOLATION' /tmp/seed-$ID-$P.log | sed -n 2p | cut -c1-200)"
 done
-git -C /repo checkout -- .
-git -C /repo status --short | head -3
+rm -rf "$W"
